@@ -53,7 +53,7 @@ var specs = map[string]spec{
 	},
 	"C03": {
 		World: "core", Level: "exploration", QuickS: 40, ThoroughS: 900,
-		Rule: "cases = 1-3 connections of kind accepted / added (nbio.Dial + AddConn) / DialAsync[Timeout] with model outcome connected, refused or never answered; each with 0-4 concurrent enders drawn from {Close, CloseWithError, peer FIN, peer close, peer reset, read deadline, write deadline with backlog, write-buffer overflow, write to a dead peer} at random delays, optional post-Close API calls, injected dup / EPOLL_CTL_ADD failures, then Engine.Stop; non-trivial = >= 2 causes on one connection, or concurrent Close calls, or a dial that did not succeed; distinct = context-switch sequence hash",
+		Rule: "cases = 1-3 connections of kind accepted / added (nbio.Dial + AddConn) / DialAsync[Timeout] with model outcome connected, refused or never answered; each with 0-4 concurrent enders drawn from {Close, CloseWithError, peer FIN, peer close, peer reset, read deadline, write deadline with backlog, write-buffer overflow, write to a dead peer} at random delays, optional post-Close API calls, injected dup / EPOLL_CTL_ADD failures, then Engine.Stop; non-trivial = >= 2 causes on one connection, or concurrent Close calls, or a dial that did not succeed; distinct = context-switch sequence hash; 12% of the connections are UDP client connections (net.DialUDP handed to the engine with AddConn, 0-2 one-byte datagrams received first, ended by Close / CloseWithError / read deadline from one or several goroutines)",
 		Real: realCore, Stub: stubKernel,
 		Assumptions: append([]string{"first cause: the reported error must belong to a cause that became observable no later than the notification and was not preceded by another cause whose call had already returned; overlapping causes are all acceptable",
 			"'closed indication' = a non-nil error from Write/Writev/Sendfile, false from Execute; descriptor access is attributed by calling goroutine through the kernel model's syscall hook"}, assumeKernel...),
@@ -72,14 +72,14 @@ var specs = map[string]spec{
 	},
 	"C16": {
 		World: "e2e", Level: "exploration", QuickS: 40, ThoroughS: 900,
-		Rule: "three quarters of the run indices (part 'deadlines', core engine): cases = timed histories of 2-14 operations from {SetReadDeadline, SetWriteDeadline, SetDeadline (set / renew / clear), Write that empties or does not empty the backlog, peer drain, sleep around the deadline (d-1, d, d+1 us), Close} on one connection in a random engine mode; the scheduler also jumps the clock to the next timer while goroutines are runnable (probability up to 5% per step); reference model of the documented semantics judges each timeout close (deadline of that kind expired and was still in force) and at quiescence each deadline in force that passed; non-trivial = a timeout close happened or a deadline was renewed/cleared within 2us of its expiry. One quarter (part 'keepalive', nbhttp.Engine + websocket.Upgrader on the simulated kernel, I/O modes nonblocking/blocking/mixed, all upgrade paths incl. transfer to the poller): 1-3 client connections follow a timed script on the simulated clock (HTTP requests, upgrade, messages, pings separated by gaps up to half the keep-alive window) and then fall silent; HTTP keep-alive in {20,50,200} ms, websocket keep-alive in {off,10,30,400} ms; oracles: no connection is closed before (instant its last request/message had been sent + the keep-alive time that applies), every silent connection has been closed after three keep-alive times of fair running, and a websocket whose keep-alive is switched off is still open then (the HTTP timer armed at accept must not survive the upgrade); 20% of the keep-alive cases run over TLS (reference instant of an unused connection = its connect)",
+		Rule: "three quarters of the run indices (part 'deadlines', core engine): cases = timed histories of 2-14 operations from {SetReadDeadline, SetWriteDeadline, SetDeadline (set / renew / clear), Write that empties or does not empty the backlog, peer drain, sleep around the deadline (d-1, d, d+1 us), Close} on one connection in a random engine mode (15%: on a connection made with DialAsyncTimeout, whose dial timer must be gone afterwards); the scheduler also jumps the clock to the next timer while goroutines are runnable (probability up to 5% per step); reference model of the documented semantics judges each timeout close (deadline of that kind expired and was still in force) and at quiescence each deadline in force that passed; non-trivial = a timeout close happened or a deadline was renewed/cleared within 2us of its expiry. One quarter (part 'keepalive', nbhttp.Engine + websocket.Upgrader on the simulated kernel, I/O modes nonblocking/blocking/mixed, all upgrade paths incl. transfer to the poller): 1-3 client connections follow a timed script on the simulated clock (HTTP requests, upgrade, messages, pings separated by gaps up to half the keep-alive window) and then fall silent; HTTP keep-alive in {20,50,200} ms, websocket keep-alive in {off,10,30,400} ms; oracles: no connection is closed before (instant its last request/message had been sent + the keep-alive time that applies), every silent connection has been closed after three keep-alive times of fair running, and a websocket whose keep-alive is switched off is still open then (the HTTP timer armed at accept must not survive the upgrade); 20% of the keep-alive cases run over TLS (reference instant of an unused connection = its connect)",
 		Real: append([]string{"nbhttp.Engine, nbhttp processor/parser, websocket.Upgrader/Conn (transformed real code) in the keepalive part"}, realCore...), Stub: stubKernel,
 		Assumptions: append([]string{"a renewal or clear whose call is invoked at a simulated time >= the deadline is allowed to lose the race; the write deadline is cleared only by a Write call that itself wrote everything to the socket (decided from the system calls the call made under the connection mutex)",
 			"keep-alive: the lower bound is measured from the instant the client had sent its last request or message, which precedes the server's renewal, so it never demands more than the statement; requests that arrive in the last half of the window are not generated (whether a request racing the expiry is served is not specified)"}, assumeKernel...),
 	},
 	"C18": {
 		World: "e2e", Level: "exploration", QuickS: 40, ThoroughS: 900,
-		Rule: "three quarters of the run indices (part 'core', nbio.Engine): cases = 0-4 connections (accepted / added / DialAsync connected / DialAsync never answered) with traffic, backlogs and pending deadlines, then Stop or Shutdown(live ctx) raced with late connects, peer closes, application closes and writes, optionally invoked right after Start; oracle: Stop returns in the fair phase, one close notification per opened connection at return, listener gone, no engine goroutine alive, no simulated descriptor open, no timer armed; non-trivial = some activity overlapped Stop; distinct = context-switch sequence hash. One quarter (part 'http', nbhttp.Engine in I/O modes nonblocking/blocking/mixed): 0-4 client connections in the states idle, answered keep-alive, handler in flight (sleeping), half a request sent, upgraded websocket (poller-driven, blocking with parser, transferred to the poller) with or without traffic; then Stop or Shutdown(context with a one hour timeout) after all clients reached their state or racing them, optionally with one more client connecting meanwhile; 20% of these cases over TLS (a handshake interrupted by the stop counts as a refused connection); oracles: the call returns in the fair phase, every client sees its connection closed, the listener is gone, no engine goroutine, descriptor or timer is left",
+		Rule: "three quarters of the run indices (part 'core', nbio.Engine): cases = 0-4 connections (accepted / added / DialAsync connected / DialAsync never answered) with traffic, backlogs (15%: a queued Sendfile, whose dup'ed real descriptor is audited through /proc/self/fd) and pending deadlines, then Stop or Shutdown(live ctx) raced with late connects, peer closes, application closes and writes, optionally invoked right after Start; oracle: Stop returns in the fair phase, one close notification per opened connection at return, listener gone, no engine goroutine alive, no simulated descriptor open, no timer armed; non-trivial = some activity overlapped Stop; distinct = context-switch sequence hash. One quarter (part 'http', nbhttp.Engine in I/O modes nonblocking/blocking/mixed): 0-4 client connections in the states idle, answered keep-alive, handler in flight (sleeping), half a request sent, upgraded websocket (poller-driven, blocking with parser, transferred to the poller) with or without traffic; then Stop or Shutdown(context with a one hour timeout) after all clients reached their state or racing them, optionally with one more client connecting meanwhile; 20% of these cases over TLS (a handshake interrupted by the stop counts as a refused connection); oracles: the call returns in the fair phase, every client sees its connection closed, the listener is gone, no engine goroutine, descriptor or timer is left",
 		Real: append([]string{"nbhttp.Engine (listeners, blocking read loops, lmux, Stop/Shutdown), websocket.Upgrader/Conn (transformed real code) in the http part"}, realCore...), Stub: stubKernel,
 		Assumptions: append([]string{"goroutines are attributed to the engine by the function that started them (nbio., taskpool., timer., nbhttp., websocket., lmux.)",
 			"TLS: llib's implementation is transformed like nbio; the clients use the standard library's crypto/tls"}, assumeKernel...),
@@ -90,7 +90,7 @@ var specs = map[string]spec{
 		Real: []string{"nbhttp.Parser (parser.go, state.go, table.go) - transformed real code, driven through its Processor interface"},
 		Stub: []string{"transport: in-memory connection; segmentation chosen by the harness", "Processor: recording implementation (observation seam)", "allocators: ownership tracker installed as mempool.DefaultMemPool / BodyAllocator"},
 		Assumptions: []string{"'same rejection' = both feeds are rejected and report identical events before the rejection; the error text is not compared", "the parser is driven like Engine.DataHandler drives it: first error => CloseAndClean => no more Parse",
-			"ReadLimit is off in this check (it makes acceptance depend on segmentation by design; C08 covers it)", "single-cut enumeration is complete per generated stream; the stream space itself is sampled"},
+			"30% of the cases install the moving flavour of the tracker as mempool.DefaultMemPool (Append relocates, like mempool.NewAligned()); 40% set MaxHTTPBodySize; half of the unmutated request streams also run through the real ServerProcessor and a handler", "ReadLimit is off in this check (it makes acceptance depend on segmentation by design; C08 covers it)", "single-cut enumeration is complete per generated stream; the stream space itself is sampled"},
 	},
 	"C07": {
 		World: "stream", Level: "exploration", QuickS: 25, ThoroughS: 600,
@@ -117,14 +117,14 @@ var specs = map[string]spec{
 	},
 	"C10": {
 		World: "e2e", Level: "exploration", QuickS: 40, ThoroughS: 900,
-		Rule: "three quarters of the run indices (server clauses): cases = nbhttp.Engine in IOMod {NonBlocking, Blocking, Mixed} x epoll mode {LT, ET, ET+ONESHOT} x 1-2 pollers x executor {inline, taskpool of 2 / 4}, 1-4 concurrent raw simulated client connections, each with 1-4 requests (HTTP/1.0 / 1.1, Connection variants, Content-Length or chunked request bodies up to 20000 bytes, response bodies from {0,1,100,1000,4096,65535,65536,70000}, handler sleeps / yields / Flush mid-body), pipelining window 1-4, client write size {1,7,64,all}; kernel: send capacity 64B-256KiB, in-flight delivery, short reads/writes, withheld readiness; oracle per connection: the received stream decodes (http.ReadResponse) to exactly one answer per written request, in order, each echoing its request's unique id with the keyed body; the handler sees the keyed request body; connection kept / closed as version and Connection header dictate; no id of another connection; handlers of one connection never overlap; non-trivial = >= 2 connections and a pipelined request; distinct = context-switch sequence hash; 20% of these cases run over TLS (the server side is llib's TLS, transformed like nbio; the clients are crypto/tls clients); 25% of the handlers announce Content-Length and write the body in two steps. One quarter (client clause): nbhttp.Client (connection pool, MaxConnsPerHost 1-4) or nbhttp.ClientConn (pipelined) against a scripted server on the simulated kernel that answers (Content-Length / chunked, written in pieces), delays, closes before or in the middle of an answer, sends garbage or stalls; dial attempts fail as planned; 1-3 caller goroutines, 1-6 requests, Timeout / IdleConnTimeout on the simulated clock, default pool or goroutine-per-call client executor; oracles: each callback exactly once (after Client.Close and quiescence for requests still pending), never neither response nor error, a response carries the id and body of its own request",
+		Rule: "three quarters of the run indices (server clauses): cases = nbhttp.Engine in IOMod {NonBlocking, Blocking, Mixed} x epoll mode {LT, ET, ET+ONESHOT} x 1-2 pollers x executor {inline, taskpool of 2 / 4}, 1-4 concurrent raw simulated client connections, each with 1-4 requests (HTTP/1.0 / 1.1, Connection variants, Content-Length or chunked request bodies up to 20000 bytes, response bodies from {0,1,100,1000,4096,65535,65536,70000}, handler sleeps / yields / Flush mid-body), pipelining window 1-4, client write size {1,7,64,all}; kernel: send capacity 64B-256KiB, in-flight delivery, short reads/writes, withheld readiness; oracle per connection: the received stream decodes (http.ReadResponse) to exactly one answer per written request, in order, each echoing its request's unique id with the keyed body; the handler sees the keyed request body; connection kept / closed as version and Connection header dictate; no id of another connection; handlers of one connection never overlap; non-trivial = >= 2 connections and a pipelined request; distinct = context-switch sequence hash; 20% of these cases run over TLS (the server side is llib's TLS, transformed like nbio; the clients are crypto/tls clients); 25% of the handlers announce Content-Length and write the body in two steps; 15% of the clients whose last exchange keeps the connection end with a request that is malformed from its first byte immediately followed by a valid one (same write / next TLS record): Config.OnRequest and the handler must not see the valid one (C08 end to end). One quarter (client clause): nbhttp.Client (connection pool, MaxConnsPerHost 1-4) or nbhttp.ClientConn (pipelined) against a scripted server on the simulated kernel that answers (Content-Length / chunked, written in pieces), delays, closes before or in the middle of an answer, sends garbage or stalls; dial attempts fail as planned; 1-3 caller goroutines, 1-6 requests, Timeout / IdleConnTimeout on the simulated clock, default pool or goroutine-per-call client executor; oracles: each callback exactly once (after Client.Close and quiescence for requests still pending), never neither response nor error, a response carries the id and body of its own request",
 		Real: []string{"nbhttp.Engine, Parser, ServerProcessor, Response, Client, ClientConn, ClientProcessor, lmux, nbio.Engine/Conn/poller, taskpool, llib std/crypto/tls (transformed real code)", "net/http types and http.ReadResponse as client-side decoder"},
 		Stub: append([]string{"TLS clients: the standard library's crypto/tls (untransformed, the independent counterpart); HTTPS in nbhttp.Client, proxies and redirects: NOT explored", "scripted HTTP server of the client clause (harness code on the simulated network)"}, stubKernel...),
 		Assumptions: append([]string{"requests pipelined behind an exchange that closes the connection may be dropped", "client clause: 'an error' is allowed for any request by the statement, so a request that fails in a fault-free run is only counted (probe client_request_failed_in_fault_free_run)"}, assumeKernel...),
 	},
 	"C14": {
 		World: "e2e", Level: "exploration", QuickS: 40, ThoroughS: 900,
-		Rule: "cases = nbhttp.Engine + websocket.Upgrader in upgrade path {poller-driven (IOModNonBlocking), blocking with parser hand-over and asynchronous send queue (IOModBlocking), transferred to the poller (UpgradeAndTransferConnToPoller), hijacked from a net/http-style server and read by the connection's own HandleRead loop (the harness plays the std server: accept, http.ReadRequest, http.Hijacker)}; permessage-deflate in both directions in 30% of the cases; wss (llib TLS transformed, crypto/tls clients) in 20% of the cases except the std path x epoll mode x 1-2 pollers x executor pool of 2 / 4; 1-3 raw simulated clients perform the HTTP upgrade, then send 0-5 masked messages (optionally fragmented, optionally in one burst immediately after the 101) while 0-4 server goroutines per connection call WriteMessage concurrently with fragmentation by MaxWebsocketFramePayloadSize in {none,16,100,1000}; connections end by client close frame, client reset, application Close or stay open; oracle: callback log matches open-start open-end (msg-start k msg-end k)* [close] with no overlap, messages in wire order exactly once (prefix if the connection ended early), close exactly once when the connection ended; the frame stream seen by the peer decodes (independent codec) into whole messages, fragments of one message contiguous, every WriteMessage that returned nil exactly once on a surviving connection, nothing from another connection; non-trivial = >= 2 concurrent writers on a connection or a close raced a callback / writer",
+		Rule: "cases = nbhttp.Engine + websocket.Upgrader in upgrade path {poller-driven (IOModNonBlocking), blocking with parser hand-over and asynchronous send queue (IOModBlocking), transferred to the poller (UpgradeAndTransferConnToPoller), hijacked from a net/http-style server and read by the connection's own HandleRead loop (the harness plays the std server: accept, http.ReadRequest, http.Hijacker)}; permessage-deflate in both directions in 30% of the cases; wss (llib TLS transformed, crypto/tls clients) in 20% of the cases except the std path x epoll mode x 1-2 pollers x executor pool of 2 / 4; 1-3 raw simulated clients perform the HTTP upgrade, then send 0-5 masked messages (optionally fragmented, optionally in one burst immediately after the 101) while 0-4 server goroutines per connection call WriteMessage concurrently with fragmentation by MaxWebsocketFramePayloadSize in {none,16,100,1000}; connections end by client close frame, client reset, application Close or stay open; oracle: callback log matches open-start open-end (msg-start k msg-end k)* [close] with no overlap, messages in wire order exactly once (prefix if the connection ended early), close exactly once when the connection ended; the frame stream seen by the peer decodes (independent codec) into whole messages, fragments of one message contiguous, every WriteMessage that returned nil exactly once on a surviving connection, nothing from another connection; non-trivial = >= 2 concurrent writers on a connection or a close raced a callback / writer; 10% of the connections have one message callback that panics when it is done (later messages and the close callback must still come); one end kind in six is a frame with a reserved opcode after the messages: the connection must be failed and closed exactly once on every path",
 		Real: []string{"nbhttp.Engine, websocket.Upgrader / Conn (all engine upgrade paths and HandleRead), compression, nbio core, taskpool, llib std/crypto/tls (transformed real code)"},
 		Stub: append([]string{"net/http.Server for the std path: played by the harness (accept, ReadRequest, Hijacker)", "TLS clients: the standard library's crypto/tls (untransformed)"}, stubKernel...),
 		Assumptions: append([]string{"the simulated client is compliant: it sends data frames only after it has received the complete 101 response, possibly immediately", "FIFO of the asynchronous send queue is judged from the peer's side (whole messages, per-writer order), not with a separate porcupine model"}, assumeKernel...),
@@ -160,7 +160,7 @@ var specs = map[string]spec{
 	},
 	"C15": {
 		World: "stream", Level: "exploration", QuickS: 25, ThoroughS: 600,
-		Rule: "cases = MessageLengthLimit L in {1..100000} x ReadLimit in {0,64,1024,65536} x scenario {single frame of L-1/L/L+1/L+2/L+100, fragments in every partition class incl. empty fragments, permessage-deflate frame whose inflated size straddles L or is 2..1000 x L (bomb), control frame of 124..200 bytes received, control frame sent, enormous declared length trickled} x read size; oracle: no delivered message above L, connection failed and close code 1009 sent when L is exceeded, sizes within L accepted, oversize control frames refused on send (nothing written) and receive, bytes live at the tracking allocator for this connection bounded by L + ReadLimit + reads (factor 2 + 12 KiB allocator slack) - which is what catches a bomb rejected only after inflating; non-trivial = size within +-1 of L, or a bomb",
+		Rule: "cases = MessageLengthLimit L in {1..100000} x ReadLimit in {0,64,1024,65536} x scenario {single frame of L-1/L/L+1/L+2/L+100, fragments in every partition class incl. empty fragments, permessage-deflate frame whose inflated size straddles L or is 2..1000 x L (bomb), control frame of 124..200 bytes received, control frame sent, enormous declared length trickled} x read size; oracle: no delivered message above L, connection failed and close code 1009 sent when L is exceeded, sizes within L accepted, oversize control frames refused on send (nothing written) and receive, bytes live at the tracking allocator for this connection bounded by L + ReadLimit + reads (factor 2 + 12 KiB allocator slack) - which is what catches a bomb rejected only after inflating; non-trivial = size within +-1 of L, or a bomb; scenario cfragments: an unfinished compressed message whose fragments (incompressible deflate stream, RSV1 on the first) are each within the limit and together three times above it",
 		Real: []string{"websocket.Conn Parse / nextFrame / readAll / isMessageTooLarge / WriteMessage (transformed real code)", "compress/flate"},
 		Stub: []string{"peer: generated frames", "transport: in-memory connection", "allocators: ownership tracker (measures live bytes)"},
 		Assumptions: []string{"memory is measured by capacity at the allocator seam; decompressor-internal windows (32 KiB) are outside it"},
